@@ -23,6 +23,8 @@ ck.assumptions = [
     'bitcode: serialize yields fresh symbolic bytes of the stated length; deserialize returns the value on exactly those bytes and {Err, arbitrary value} on anything else',
     'disk-space pre-check (statvfs) returns Ok; rotation not triggered (default 1 GiB limit)',
     'P1: persist_log_entry / RaftWal::append called from the node are stubs that record their argument and may fail; the byte-level log is covered by W1-W3',
+    'N2: record checksums are assumed non-zero (0 is the "no checksum" value the reader accepts unverified; that branch is explored by W1-W3)',
+    'N1/N2: the file model never fails a write (a crash is the only fault, as in the property); the WAL-error branches of the handlers are therefore not reached there (P1 reaches them with a failing stub)',
     'outside: log rotation, snapshot-triggered truncation, RaftNode::with_wal wiring (node-level chains W5/W6)',
 ]
 
@@ -244,6 +246,104 @@ for handler in ('request_vote', 'start_election', 'append_entries'):
 if node_runs == 0:
     ck.inconclusive.append('vacuous: node-level obligation never instantiated')
 
+# ------------------------------------------------------------------ N2: node level - the recovered log equals the in-memory log
+# The WAL file is first filled by the node's own persist_log_entry (real code) with its pre-log; then the real
+# handle_append_entries runs against the real RaftWal; the file is reopened and the REAL RaftRecoveryState::from_wal
+# rebuilds the log: it must be, entry for entry, the log the node holds in memory - so every entry covered by the
+# acknowledgement just sent is there after a restart.
+ck.declare('N2_recovered_log_equals_memory', 'pre-log 0..2 entries written through persist_log_entry, one handle_append_entries with 1..2 entries after prev = 0..len, real RaftWal and real from_wal',
+           'after the handler returns the log rebuilt by from_wal has the same length as the in-memory log and the same (term, index) at every position')
+ck.bounds['node level log'] = 'pre-log 0..2, entries per message 1..2, log_base_index 0, payload image 2 bytes; disk writes do not fail'
+n2_runs = 0
+n2_conflicts = 0
+for nlog in range(0, 3):
+    for k in (1, 2):
+        for p_off in range(0, nlog + 1):
+            st = ex2.new_state()
+            st.env['codec_len'] = 2
+            st.env['crc_nonzero'] = True
+            N = Node(st, nlog)
+            st.assume(z3.ULT(N.term0.v, U64(1 << 62)))
+            st.assume(z3.UGT(N.term0.v, U64(0)))
+            opened = sc2.open(st, 'node wal')
+            if len(opened) != 1 or opened[0][1] is None:
+                ck.inconclusive.append('N2: initial open failed')
+                continue
+            st = opened[0][0]
+            walobj = st.roots['wal'].load(st)
+            st.roots['node'].fields[F('RaftNode', 'wal')] = some(Ptr(Cell(val=Struct('Mutex', {'data': Cell(val=walobj)})), 0),
+                                                                 'std::option::Option<std::sync::Arc<parking_lot::lock_api::Mutex<parking_lot::RawMutex, raft_wal::RaftWal>>>')
+            okp = True
+            for i in range(nlog):
+                e = N.persistent(st).load(F('PersistentState', 'log'), None, st).items(st)[i]
+                rs = sc2.run(st, 'RaftNode::persist_log_entry', [st.roots['nodeptr'], ref(e)])
+                g = [r for r in rs if r.status == 'return' and r.retval.variant == 'Ok']
+                if len(g) != 1:
+                    ck.inconclusive.append(f'N2: writing pre-log entry {i}: {[(r.status, r.msg) for r in rs][:3]}')
+                    okp = False
+                    break
+                st = g[0].st
+            if not okp:
+                continue
+            N.node = st.roots['node']
+            ae = st.fresh('AppendEntries', 'ae')
+            ae.fields[F('AppendEntries', 'prev_log_index')] = Int(U64(p_off), False)
+            ae.fields[F('AppendEntries', 'block_embedding')] = none('std::option::Option<tensor_store::SparseVector>')
+            ae_term = ae.load(F('AppendEntries', 'term'), 'u64', st).v
+            ents, eterms = [], []
+            for j in range(k):
+                e = st.fresh('LogEntry', f'ae.entries[{j}]')
+                t = e.load(F('LogEntry', 'term'), 'u64', st)
+                e.fields[F('LogEntry', 'index')] = Int(U64(p_off + j + 1), False)
+                ents.append(e)
+                eterms.append(t.v)
+                st.assume(z3.ULE(t.v, ae_term))
+            ae.fields[F('AppendEntries', 'entries')] = Seq('LogEntry', ents)
+            frm = st.fresh('std::string::String', 'from')
+            res = sc2.run(st, 'RaftNode::handle_append_entries', [st.roots['nodeptr'], ref(frm), ref(ae)])
+            ck.note_path_problem(res, f'N2 handle_append_entries log={nlog} k={k} prev={p_off}')
+            for r in res:
+                wit = lambda m, r=r, N=N, eterms=eterms, p_off=p_off, nlog=nlog: {'node_log': True, 'pre_terms': [mval(m, t) for t in N.log0], 'prev': p_off,
+                                                                                 'prev_term': mval(m, r.st.symbols['ae.prev_log_term'].v) if 'ae.prev_log_term' in r.st.symbols else 0,
+                                                                                 'ae_term': mval(m, ae_term), 'entry_terms': [mval(m, t) for t in eterms], 'node_term': mval(m, N.term0.v)}
+                if r.status == 'panic':
+                    ck.require(ex2, 'N2_recovered_log_equals_memory', r.pc, None, z3.BoolVal(False), wit, lambda m, w: 'node-panic')
+                    continue
+                if r.status != 'return':
+                    continue
+                f = r.st
+                mem = N.log(f)
+                s3 = sc2.crash(f, len(sc2.file(f).data))
+                for (s4, wp4, e4) in sc2.open(s3, 'N2 reopen'):
+                    if wp4 is None:
+                        ck.require(ex2, 'N2_recovered_log_equals_memory', s4.pc, None, z3.BoolVal(False), wit, lambda m, w: 'node-reopen')
+                        continue
+                    rr = sc2.run(s4, 'RaftRecoveryState::from_wal', [s4.roots['wal']])
+                    ck.note_path_problem(rr, 'N2 from_wal')
+                    for r5 in rr:
+                        if r5.status != 'return' or r5.retval.variant != 'Ok':
+                            if r5.status in ('return', 'panic'):
+                                ck.require(ex2, 'N2_recovered_log_equals_memory', r5.pc, None, z3.BoolVal(False), wit, lambda m, w: 'node-recovery-failed')
+                            continue
+                        rs_ = r5.retval.fields[('Ok', 0)]
+                        rec = rs_.load(P.field('RaftRecoveryState', 'recovered_log'), None, r5.st).items(r5.st)
+                        tab = r5.st.env.get('codec', [])
+                        got = []
+                        for img in rec:
+                            items = img.items(r5.st)
+                            hit = [v for bs, v in tab if len(bs) == len(items) and all(a.v.eq(b.v) for a, b in zip(bs, items))]
+                            got.append(hit[0] if hit else None)
+                        if len(got) != len(mem) or any(g is None or not isinstance(g, Struct) for g in got):
+                            concl = z3.BoolVal(False)
+                        else:
+                            concl = z3.And([z3.And(g.load(F('LogEntry', 'term'), 'u64', r5.st).v == mt, g.load(F('LogEntry', 'index'), 'u64', r5.st).v == mi)
+                                            for g, (mt, mi) in zip(got, mem)] + [z3.BoolVal(True)])
+                        ck.require(ex2, 'N2_recovered_log_equals_memory', r5.pc, None, concl, wit, lambda m, w: 'log-not-recovered')
+                        n2_runs += 1
+if n2_runs == 0:
+    ck.inconclusive.append('vacuous: N2 never instantiated')
+ck.notes.append(f'N2: {n2_runs} handler paths compared with the log rebuilt by from_wal')
+
 # ------------------------------------------------------------------ native replay on real files
 for v in ck.violations:
     w = v['witness']
@@ -254,6 +354,10 @@ for v in ck.violations:
             v['replayed'] = rep.get('replay1_ok') is False or rep.get('replay1_matches') is False
         else:
             v['replayed'] = rep.get('replay2_ok') is False or rep.get('new_record_recovered') is False or rep.get('replay2_prefix_matches') is False
+    elif w.get('node_log'):
+        rep = Replay.call({'op': 'raft_log_restart', **w})
+        v['native'] = rep
+        v['replayed'] = rep.get('differs')
     elif w.get('node_level'):
         rep = Replay.call({'op': 'raft_node_restart', **w})
         v['native'] = rep
